@@ -1144,3 +1144,81 @@ func c13r11(rc *core.RC) {
 		rc.Unknown("json/option-constructors", token.NoPos, "found %d of 6 option constructors and 3 flag words", n)
 	}
 }
+
+// ---- C13.R12 the four string writers spell every ASCII byte alike ----
+
+// AppendString chooses one of four writers by the HTML-escape and normalisation options. The options may change only
+// what they name: the spelling of <, > and & (HTML escaping) and what happens to bytes from 0x80 (normalisation).
+// For every other byte below 0x80 the escape switch of the four writers has to have the same clause (statement for
+// statement): a short escape (\b, \f) introduced in two of the four makes DisableHTMLEscape change the spelling of
+// control characters as well.
+func c13r12(rc *core.RC) {
+	p := rc.P
+	names := []string{"appendNormalizedHTMLString", "appendHTMLString", "appendNormalizedString", "appendString"}
+	clause := map[string]map[int]string{}
+	n := 0
+	for _, name := range names {
+		fd := p.Func("encoder", name)
+		if fd == nil || fd.Body == nil {
+			rc.Unknown("encoder."+name+"/escape-switch", token.NoPos, "string writer not found")
+			continue
+		}
+		rc.Touch("encoder." + name)
+		info := p.Info(fd)
+		var bs *core.ByteSwitch
+		ast.Inspect(fd.Body, func(m ast.Node) bool {
+			sw, ok := m.(*ast.SwitchStmt)
+			if !ok || bs != nil {
+				return true
+			}
+			if b, _ := core.EvalByteSwitch(info, sw); b != nil && b.HasLabel('"') && b.HasLabel('\\') && b.HasLabel('\n') {
+				bs = b
+			}
+			return true
+		})
+		if bs == nil {
+			rc.Unknown("encoder."+name+"/escape-switch", fd.Pos(), "the escape switch (clauses for the quote, the backslash and the line feed) was not found")
+			continue
+		}
+		n++
+		m := map[int]string{}
+		for b := 0; b < 128; b++ {
+			ci := bs.Of[b]
+			if ci < 0 {
+				m[b] = ""
+				continue
+			}
+			var parts []string
+			for _, st := range bs.Clauses[ci].Body {
+				parts = append(parts, strings.Join(strings.Fields(core.Src(p.Fset, st)), " "))
+			}
+			m[b] = strings.Join(parts, "; ")
+		}
+		clause[name] = m
+	}
+	if n < 4 {
+		rc.Unknown("encoder/string-writers", token.NoPos, "found %d of the four string writers with an escape switch", n)
+		return
+	}
+	ref := clause[names[0]]
+	var diffs []string
+	for b := 0; b < 128; b++ {
+		if b == '<' || b == '>' || b == '&' {
+			continue
+		}
+		for _, name := range names[1:] {
+			if clause[name][b] != ref[b] {
+				diffs = append(diffs, fmt.Sprintf("%s in %s", core.FmtBytes([]int{b}), name))
+			}
+		}
+	}
+	if len(diffs) > 8 {
+		diffs = append(diffs[:8], fmt.Sprintf("… %d more", len(diffs)-8))
+	}
+	rc.Check(len(diffs) == 0, "encoder/string-writers/ascii-bytes-spelled-alike", token.NoPos, "for every byte below 0x80 other than <, > and & the escape switch of the four string writers has the same clause as %s (124 byte values compared)%s", names[0], func() string {
+		if len(diffs) == 0 {
+			return ""
+		}
+		return "; differs for: " + strings.Join(diffs, ", ") + " — the same string is spelled differently depending on options that do not name that byte"
+	}())
+}
